@@ -13,3 +13,89 @@ impl ConfigDatabase {
         &self.db
     }
 }
+
+// ------------------------------------------------------------------------------------------- S2
+// C20: what `ConfigDatabase::validate` decides (the start-up guard's only comparison). The call
+// structure of `validate_config_database` around it is S1 (MIR paths, smt/startup_guard.py).
+#[cfg(kani)]
+pub(crate) mod verif_s {
+    use super::*;
+
+    pub fn format_stub(_args: std::fmt::Arguments<'_>) -> String {
+        String::new()
+    }
+    /// a 1- or 2-character ASCII string with symbolic content
+    fn text(two: bool, a: u8, b: u8) -> String {
+        let v = if two { vec![a, b] } else { vec![a] };
+        unsafe { String::from_utf8_unchecked(v) }
+    }
+
+    /// recorded in memory (what `set` leaves behind during the run that created the database):
+    /// Ok iff the key is recorded and the recorded text is exactly the expected one.
+    #[kani::proof]
+    #[kani::stub(alloc::fmt::format, format_stub)]
+    fn s2_validate_recorded() {
+        let mut db = ConfigDatabase::verif_model_ctl(None, 60);
+        let present: bool = kani::any();
+        let (s2, sa, sb): (bool, u8, u8) = (kani::any(), kani::any(), kani::any());
+        let (w2, wa, wb): (bool, u8, u8) = (kani::any(), kani::any(), kani::any());
+        kani::assume(sa < 0x80 && sb < 0x80 && wa < 0x80 && wb < 0x80);
+        if present {
+            db.verif_put_cache("k".to_string(), text(s2, sa, sb));
+        }
+        let want = text(w2, wa, wb);
+        let r = db.validate("k", &want);
+        let same = s2 == w2 && sa == wa && (!s2 || sb == wb);
+        assert!(r.is_ok() == (present && same));
+        // another key is never satisfied by this record
+        let r2 = db.validate("j", &want);
+        assert!(r2.is_err());
+        kani::cover!(present && same && s2);
+        kani::cover!(present && !same && s2 == w2);
+        core::mem::forget(db);
+        core::mem::forget(r);
+        core::mem::forget(r2);
+        core::mem::forget(want);
+    }
+
+    /// recorded on disk only (a reopened database): same decision, through `get`'s storage path.
+    #[kani::proof]
+    #[kani::stub(alloc::fmt::format, format_stub)]
+    fn s2_validate_stored() {
+        let mut db = ConfigDatabase::verif_model_ctl(None, 60);
+        let present: bool = kani::any();
+        if present {
+            db.verif_store().verif_plant_last(&"k".to_string().encode_vec(), &"ab".to_string().encode_vec());
+        }
+        let r_same = db.validate("k", "ab");
+        let r_other = db.validate("k", "ac");
+        let r_prefix = db.validate("k", "a");
+        let r_key = db.validate("j", "ab");
+        assert!(r_same.is_ok() == present);
+        assert!(r_other.is_err() && r_prefix.is_err() && r_key.is_err());
+        kani::cover!(present);
+        kani::cover!(!present);
+        core::mem::forget(db);
+        core::mem::forget((r_same, r_other, r_prefix, r_key));
+    }
+
+    /// `set` records what `validate` later accepts, in memory and in the store (one write).
+    #[kani::proof]
+    #[kani::stub(alloc::fmt::format, format_stub)]
+    fn s2_set_then_validate() {
+        let ctl = rocksdb::Ctl::leak();
+        let mut db = ConfigDatabase::verif_model_ctl(Some(ctl), 60);
+        db.set("k".to_string(), "ab".to_string()).unwrap();
+        assert!(ctl.writes_done() == 1);
+        assert!(db.validate("k", "ab").is_ok());
+        // reopened: a fresh object over the same store, nothing cached
+        db.cache = HashMap::new();
+        let r = db.validate("k", "ab");
+        let r2 = db.validate("k", "abc");
+        assert!(r.is_ok());
+        assert!(r2.is_err());
+        kani::cover!(true);
+        core::mem::forget(db);
+        core::mem::forget((r, r2));
+    }
+}
